@@ -28,6 +28,7 @@ type c26Src struct {
 	id    string
 	valid bool   // parses, checks, declares the requested name
 	enum  bool   // declares an enum
+	decls string // nested type declarations, space separated (an update that drops one is left to C27)
 	initPanics bool // the initializer panics: add must fail; as an update source it is a valid, compatible program
 	xType string // type of field x ("Int" / "String")
 	x     string // rendering of x after this source's initializer ran
@@ -38,7 +39,10 @@ var c26Sources = map[string]*c26Src{
 	"v1":   {id: "v1", valid: true, xType: "Int", x: "10", v: 1},
 	"v2":   {id: "v2", valid: true, xType: "Int", x: "20", v: 2},
 	"v3":   {id: "v3", valid: true, xType: "String", x: "\"s\"", v: 3}, // incompatible with v1/v2/en (field type)
-	"en":   {id: "en", valid: true, enum: true, xType: "Int", x: "40", v: 4},
+	"en":   {id: "en", valid: true, enum: true, decls: "En", xType: "Int", x: "40", v: 4},
+	// the enum is not the first nested declaration
+	"ens": {id: "ens", valid: true, enum: true, decls: "St En", xType: "Int", x: "80", v: 8},
+	"enr": {id: "enr", valid: true, enum: true, decls: "Rs Ev En En2", xType: "Int", x: "90", v: 9},
 	"pini": {id: "pini", valid: true, initPanics: true, xType: "Int", x: "70", v: 7},
 	"terr": {id: "terr"}, // type error
 	"name": {id: "name"}, // declares another name
@@ -54,6 +58,10 @@ func c26Code(name, src string) string {
 		return fmt.Sprintf("import CI from 0x3\naccess(all) contract %s: CI {\n    access(all) var x: String\n    access(all) fun v(): Int { return 3 }\n    init() { self.x = \"s\" }\n}\n", name)
 	case "en":
 		return fmt.Sprintf("import CI from 0x3\naccess(all) contract %s: CI {\n    access(all) enum En: UInt8 { access(all) case a }\n    access(all) var x: Int\n    access(all) fun v(): Int { return 4 }\n    init() { self.x = 40 }\n}\n", name)
+	case "ens":
+		return fmt.Sprintf("import CI from 0x3\naccess(all) contract %s: CI {\n    access(all) struct St {}\n    access(all) enum En: UInt8 { access(all) case a }\n    access(all) var x: Int\n    access(all) fun v(): Int { return 8 }\n    init() { self.x = 80 }\n}\n", name)
+	case "enr":
+		return fmt.Sprintf("import CI from 0x3\naccess(all) contract %s: CI {\n    access(all) resource Rs {}\n    access(all) event Ev()\n    access(all) enum En: UInt8 { access(all) case a }\n    access(all) enum En2: UInt8 { access(all) case b }\n    access(all) var x: Int\n    access(all) fun v(): Int { return 9 }\n    init() { self.x = 90 }\n}\n", name)
 	case "pini":
 		return fmt.Sprintf("import CI from 0x3\naccess(all) contract %s: CI {\n    access(all) var x: Int\n    access(all) fun v(): Int { return 7 }\n    init() { self.x = 70; panic(\"init\") }\n}\n", name)
 	case "terr":
@@ -79,8 +87,10 @@ func c26UpdateVerdict(old, new *c26Src) int {
 	if old.xType != new.xType {
 		return updOpen
 	}
-	if old.enum && !new.enum {
-		return updOpen
+	for _, d := range strings.Fields(old.decls) {
+		if !strings.Contains(" "+new.decls+" ", " "+d+" ") {
+			return updOpen // a nested declaration is dropped
+		}
 	}
 	return updMustOK
 }
@@ -669,12 +679,15 @@ func c26Ops(m *c26Model, thorough bool, singlesOnly bool) []string {
 		srcs := []string{"v1", "v2", "en"}
 		if full {
 			names = []string{"A", "B"}
-			srcs = []string{"v1", "v2", "v3", "en", "pini", "terr", "name"}
+			srcs = []string{"v1", "v2", "v3", "en", "ens", "enr", "pini", "terr", "name"}
 		}
 		var singles []c26Call
 		for _, n := range names {
 			for _, k := range []string{"add", "upd", "try"} {
 				for _, s := range srcs {
+					if (s == "ens" || s == "enr") && (k != "add" || n != "A") && !thorough {
+						continue // quick tier: the enum-position variants are only deployed with add, on name A
+					}
 					singles = append(singles, c26Call{k, n, s})
 				}
 			}
@@ -860,7 +873,7 @@ func replayC26(env *mc.Env, raw json.RawMessage) (bool, string) {
 func init() {
 	mc.Register(&mc.Check{
 		ID: "C26",
-		Rule: "explicit-state BFS (depth 3 transactions, thorough 4; the last level uses one-call transactions only), every history run twice: with a fresh runtime environment per transaction and with ONE environment reused across the history (then also (failing transaction, next transaction) chains on the same name), over contract lifecycle transactions on 2 accounts x names {A,B} x sources {v1, compatible v2, incompatible v3, with-enum, panicking-init, type-error, name-mismatch}: " +
+		Rule: "explicit-state BFS (depth 3 transactions, thorough 4; the last level uses one-call transactions only), every history run twice: with a fresh runtime environment per transaction and with ONE environment reused across the history (then also (failing transaction, next transaction) chains on the same name), over contract lifecycle transactions on 2 accounts x names {A,B} x sources {v1, compatible v2, incompatible v3, with-enum (enum first / after a struct / after a resource and an event, two enums), panicking-init, type-error, name-mismatch}: " +
 			"one or two calls of add/update/tryUpdate/remove per transaction (pairs on the same name), optionally followed by a panic; each call's outcome, the transaction's own names/get view, the AccountContract* events of successful transactions, " +
 			"and after every committed transaction a fresh-runtime view (names, get, borrow<&{CI}>, imports running the deployed code on the kept contract value, import of a missing contract) are compared with a per-account Go model; both engines. " +
 			"non-trivial = distinct (call, deployment state) pairs that succeeded or were reported failed by tryUpdate",
